@@ -308,6 +308,10 @@ func (s *Scope) evalBin(e *Expr) *Val {
 	}
 	_, signed, _ := intInfoOrUnsigned(ty)
 	switch e.Name {
+	case "*", "/", "%", "<<", ">>":
+		x, y = c.known(x), c.known(y) // operands pinned by an enclosing case or precondition
+	}
+	switch e.Name {
 	case "+":
 		return &Val{K: KScalar, T: BVAdd(x, y), Ty: ty}
 	case "-":
@@ -572,6 +576,7 @@ func (s *Scope) evalIndex(e *Expr) *Val {
 	switch a.K {
 	case KSlice:
 		idx := s.toIdx(i)
+		c.addTrig(idx) // a ground index of a specification is an instantiation point for the quantified facts
 		return c.load(s.st, RefElem(a.Base, c.idxAdd(a.Off, idx)), elemOf(a.Ty))
 	case KTuple:
 		idx := s.toIdx(i)
@@ -751,6 +756,13 @@ func (s *Scope) evalCall(e *Expr) *Val {
 			panic(sfail("unknown type %s", want))
 		}
 		return scalar(Eq(a.Tag, c.typeTag(tt)), boolT)
+	case "samearray":
+		// samearray(a, b): the same window origin of the same backing array, same capacity
+		a, b := argv(0), argv(1)
+		if a.K != KSlice || b.K != KSlice {
+			panic(sfail("samearray: slices expected"))
+		}
+		return scalar(And(Eq(a.Base, b.Base), Eq(a.Off, b.Off), Eq(a.Cap, b.Cap)), boolT)
 	case "disjoint":
 		// disjoint(a, b): two slices backed by different allocations
 		a, b := argv(0), argv(1)
